@@ -112,11 +112,9 @@ func (a *hAccount) IncreaseNonce(uint64)     {}
 func (a *hAccount) GetNonce() uint64         { return 0 }
 func (a *hAccount) IsInterfaceNil() bool     { return a == nil }
 func (a *hAccount) RetrieveValue(key []byte) ([]byte, error) {
-	v := a.storage[string(key)]
-	if v == nil {
-		return nil, nil
-	}
-	return append([]byte(nil), v...), nil
+	// by reference, like the repository's own account doubles (mock.Account, AccountWrapMock) and a data-trie tracker's dirty map:
+	// a value that the library keeps writing into after it was stored (a reused buffer) shows as a changed entry
+	return a.storage[string(key)], nil
 }
 func (a *hAccount) SaveKeyValue(key, value []byte) error {
 	if a.w.plan.hit("SaveKeyValue") {
@@ -125,7 +123,7 @@ func (a *hAccount) SaveKeyValue(key, value []byte) error {
 	if len(value) == 0 {
 		delete(a.storage, string(key))
 	} else {
-		a.storage[string(key)] = append([]byte(nil), value...)
+		a.storage[string(key)] = value // by reference (see RetrieveValue)
 	}
 	return nil
 }
